@@ -11,16 +11,16 @@ plan('C17',
           '131042..131102 and 199990..200000 before sampling; lines enumerates every single-line length 0..2000 x {no newline, LF, CRLF, LF+tail} '
           'on its even indices',
      jobs=[
-         Job('c17_files', 'bin', 'asan', quick=4000, thorough=120000, shards=(4, 12)),
-         Job('c17_files', 'bin', 'plain', quick=4000, thorough=120000, shards=(2, 8)),
-         Job('c17_files', 'lines', 'asan', quick=12000, thorough=200000, shards=(4, 12)),
-         Job('c17_files', 'lines', 'plain', quick=12000, thorough=200000, shards=(2, 8)),
-         Job('c17_files', 'hist', 'asan', quick=4000, thorough=120000, shards=(4, 16)),
-         Job('c17_files', 'hist', 'plain', quick=4000, thorough=120000, shards=(3, 12)),
-         Job('c17_files', 'bom', 'asan', quick=6000, thorough=160000, shards=(2, 8)),
-         Job('c17_files', 'bom', 'plain', quick=6000, thorough=160000, shards=(1, 4)),
-         Job('c17_files', 'copy', 'asan', quick=2500, thorough=60000, shards=(3, 12)),
-         Job('c17_files', 'copy', 'plain', quick=2500, thorough=60000, shards=(2, 8)),
+         Job('c17_files', 'bin', 'asan', quick=3000, thorough=80000, shards=(4, 12)),
+         Job('c17_files', 'bin', 'plain', quick=3000, thorough=80000, shards=(2, 8)),
+         Job('c17_files', 'lines', 'asan', quick=9000, thorough=150000, shards=(4, 12)),
+         Job('c17_files', 'lines', 'plain', quick=9000, thorough=150000, shards=(2, 8)),
+         Job('c17_files', 'hist', 'asan', quick=3000, thorough=80000, shards=(4, 16)),
+         Job('c17_files', 'hist', 'plain', quick=3000, thorough=80000, shards=(3, 12)),
+         Job('c17_files', 'bom', 'asan', quick=5000, thorough=120000, shards=(2, 8)),
+         Job('c17_files', 'bom', 'plain', quick=5000, thorough=120000, shards=(1, 4)),
+         Job('c17_files', 'copy', 'asan', quick=2000, thorough=40000, shards=(3, 12)),
+         Job('c17_files', 'copy', 'plain', quick=2000, thorough=40000, shards=(2, 8)),
          # sizes above 200000 bytes: to 1 MiB in the quick tier, sampled to 16 MiB in the thorough tier
          Job('c17_files', 'big', 'asan', quick=8, thorough=100, shards=(4, 6), params=dict(maxmb=1), tparams=dict(maxmb=16)),
          Job('c17_files', 'big', 'plain', quick=16, thorough=200, shards=(2, 6), params=dict(maxmb=1), tparams=dict(maxmb=16)),
